@@ -423,15 +423,149 @@ func runEncDisp(c Case) EncDisp {
 
 var cur, curStart int64
 
-func main() {
-	ev.Quiet()
-	if len(os.Args) < 5 || os.Args[1] != "run" {
-		ev.Fatal("usage: codec run <cases.ndjson> <out.ndjson> <journal>")
+// execCase runs one case on the real API and hands every observation to emit.
+func execCase(c Case, rng *rand.Rand, emit func(interface{})) {
+	if c.Big == 0 {
+		c.Big = 1 << 30
 	}
-	in, err := os.Open(os.Args[2])
+	switch c.K {
+	case "dec":
+		var inp []byte
+		if c.Inp != nil {
+			inp = ev.Bytes(c.Inp)
+		}
+		if c.Lean {
+			emit(runDecLean(c.Entry, inp, c.Big, c.M))
+		} else {
+			emit(runDec(c.Entry, inp, c.Big, c.M, true))
+		}
+	case "rt":
+		emit(runRT(c))
+	case "re":
+		emit(runRe(ev.Bytes(c.Inp)))
+	case "pured":
+		emit(runPureD(c.Entry, ev.Bytes(c.Inp)))
+	case "puree":
+		emit(runPureE(c))
+	case "encdisp":
+		emit(runEncDisp(c))
+	case "rand": // Count seeded random inputs of length up to Max with the first octets biased to valid headers
+		for k := 0; k < c.Count; k++ {
+			emit(runDecLean(c.Entry, randInput(rng, c.Max, c.Inp), c.Big, c.M))
+			atomic.StoreInt64(&curStart, time.Now().UnixNano())
+		}
+	default:
+		ev.Fatal("unknown case kind %q", c.K)
+	}
+}
+
+func readCases(path string) []Case {
+	in, err := os.Open(path)
 	if err != nil {
 		ev.Fatal("%v", err)
 	}
+	defer in.Close()
+	sc := bufio.NewScanner(in)
+	sc.Buffer(make([]byte, 1<<20), 1<<28)
+	var out []Case
+	for sc.Scan() {
+		var c Case
+		if err := json.Unmarshal(sc.Bytes(), &c); err != nil {
+			ev.Fatal("case %d: %v", len(out), err)
+		}
+		out = append(out, c)
+	}
+	return out
+}
+
+// Shared: a read-only use of a message decoded before the goroutines started (C19).
+type Shared struct {
+	Op    string  `json:"op"`
+	Inp   []int   `json:"inp"`
+	Ok    bool    `json:"ok"`
+	Panic bool    `json:"panic"`
+	Pfn   string  `json:"pfn"`
+	Bytes []int   `json:"bytes"`
+	D     rm.Proj `json:"d"`
+}
+
+// runPar: N goroutines, each walking the whole case list from its own starting point with its own
+// writer; a few messages decoded up front are shared and only read (projected, re-encoded).
+func runPar(cases []Case, prefix string, n int, rounds int) {
+	type sh struct {
+		inp []byte
+		m   *nas.Message
+	}
+	var shared []sh
+	for _, c := range cases {
+		if c.K == "dec" && c.Entry == "plain" && len(shared) < 8 {
+			m := nas.NewMessage()
+			b := ev.Bytes(c.Inp)
+			if err := m.PlainNasDecode(&b); err == nil {
+				shared = append(shared, sh{ev.Bytes(c.Inp), m})
+			}
+		}
+	}
+	done := make(chan int, n)
+	seed := ev.Seed()
+	for g := 0; g < n; g++ {
+		go func(g int) {
+			w := ev.Create(fmt.Sprintf("%s.%d.ndjson", prefix, g))
+			rng := rand.New(rand.NewSource(seed*1000 + int64(g)))
+			for r := 0; r < rounds; r++ {
+				off := rng.Intn(len(cases))
+				for i := range cases {
+					c := cases[(i+off)%len(cases)]
+					if c.K == "rand" {
+						continue
+					}
+					execCase(c, rng, w.Emit)
+					if len(shared) > 0 && rng.Intn(4) == 0 {
+						s := shared[rng.Intn(len(shared))]
+						e := Shared{Op: "Shared", Inp: ev.Ints(s.inp), Bytes: []int{}, D: rm.EmptyProj()}
+						pi := ev.Guard(func() {
+							e.D = rm.Project(s.m)
+							out, err := s.m.PlainNasEncode()
+							e.Ok = err == nil
+							if e.Ok {
+								e.Bytes = ev.Ints(out)
+							}
+						})
+						if pi != nil {
+							e.Panic, e.Pfn = true, pi.Fn+": "+pi.Kind
+						}
+						w.Emit(e)
+					}
+					if rng.Intn(8) == 0 {
+						runtime.Gosched()
+					}
+				}
+			}
+			w.Close()
+			done <- w.N
+		}(g)
+	}
+	total := 0
+	for g := 0; g < n; g++ {
+		total += <-done
+	}
+	fmt.Println("events", total)
+}
+
+func main() {
+	ev.Quiet()
+	if len(os.Args) >= 6 && os.Args[1] == "runpar" {
+		// codec runpar <cases.ndjson> <outprefix> <goroutines> <rounds>
+		var n, rounds int
+		fmt.Sscan(os.Args[4], &n)
+		fmt.Sscan(os.Args[5], &rounds)
+		runPar(readCases(os.Args[2]), os.Args[3], n, rounds)
+		return
+	}
+	if len(os.Args) < 5 || os.Args[1] != "run" {
+		ev.Fatal("usage: codec run <cases.ndjson> <out.ndjson> <journal> | codec runpar <cases> <outprefix> <N> <rounds>")
+	}
+	cases := readCases(os.Args[2])
 	w := ev.Create(os.Args[3])
 	jf, err := os.Create(os.Args[4])
 	if err != nil {
@@ -450,55 +584,16 @@ func main() {
 		}
 	}()
 	runtime.GC()
-	sc := bufio.NewScanner(in)
-	sc.Buffer(make([]byte, 1<<20), 1<<28)
 	rng := ev.Rng()
-	i := int64(0)
-	for sc.Scan() {
-		var c Case
-		if err := json.Unmarshal(sc.Bytes(), &c); err != nil {
-			ev.Fatal("case %d: %v", i, err)
-		}
-		if c.Big == 0 {
-			c.Big = 1 << 30
-		}
-		atomic.StoreInt64(&cur, i)
+	for i, c := range cases {
+		atomic.StoreInt64(&cur, int64(i))
 		atomic.StoreInt64(&curStart, time.Now().UnixNano())
 		fmt.Fprintf(jf, "START %d\n", i)
-		switch c.K {
-		case "dec":
-			var inp []byte
-			if c.Inp != nil {
-				inp = ev.Bytes(c.Inp)
-			}
-			if c.Lean {
-				w.Emit(runDecLean(c.Entry, inp, c.Big, c.M))
-			} else {
-				w.Emit(runDec(c.Entry, inp, c.Big, c.M, true))
-			}
-		case "rt":
-			w.Emit(runRT(c))
-		case "re":
-			w.Emit(runRe(ev.Bytes(c.Inp)))
-		case "pured":
-			w.Emit(runPureD(c.Entry, ev.Bytes(c.Inp)))
-		case "puree":
-			w.Emit(runPureE(c))
-		case "encdisp":
-			w.Emit(runEncDisp(c))
-		case "rand": // Count seeded random inputs of length up to Max with the first octets biased to valid headers
-			for k := 0; k < c.Count; k++ {
-				w.Emit(runDecLean(c.Entry, randInput(rng, c.Max, c.Inp), c.Big, c.M))
-				atomic.StoreInt64(&curStart, time.Now().UnixNano())
-			}
-		default:
-			ev.Fatal("unknown case kind %q", c.K)
-		}
-		i++
+		execCase(c, rng, func(v interface{}) { w.Emit(v) })
 	}
 	atomic.StoreInt64(&curStart, 0)
 	w.Close()
-	fmt.Fprintf(jf, "END %d\n", i)
+	fmt.Fprintf(jf, "END %d\n", len(cases))
 	jf.Close()
 }
 
